@@ -233,6 +233,19 @@ def run(prop, tier, seed, n_override=None):
     harness_errors = []
     skipped_batches = 0
     ctx = mp.get_context("fork")
+    # Warm up in the parent before forking: torch initialises a lot lazily on first use, and paying for that in 16
+    # freshly forked workers at once costs ~20 s of CPU each. Results of the warm-up runs are discarded.
+    import torch
+    torch.set_num_threads(1)
+    import warnings
+    warnings.simplefilter("ignore")
+    try:
+        for w in range(min(int(os.environ.get("VERIF_WARM", "8")), n)):
+            wc = mod.gen_case(run_seed(seed, prop, w), tier, w)
+            if not getattr(mod, "WARMUP_SKIP", None) or not mod.WARMUP_SKIP(wc):
+                _safe_run(mod, wc)
+    except Exception as e:  # noqa
+        print("warm-up failed:", repr(e))
     try:
         with cf.ProcessPoolExecutor(max_workers=NPROC, mp_context=ctx, initializer=_init_worker) as ex:
             futs = []
